@@ -796,6 +796,7 @@ type SchedConfig struct {
 	SilenceAt   int     `json:"silence_at"`   // ... from this step on (0 = never)
 	DropPct     int     `json:"drop_pct"`
 	StopOnError bool    `json:"stop_on_error"`
+	HoldType    string  `json:"hold_type,omitempty"` // deliver flag-flipped copies of this type first, hold the genuine ones back
 	_           float64 // keep struct comparable-free
 }
 
@@ -914,6 +915,7 @@ func (w *World) RunSchedule(cfg *SchedConfig) bool {
 	}
 	faults := 0
 	mixCur := "random"
+	heldFlipped := map[int]bool{}
 	for w.StepNo < cfg.MaxSteps {
 		if w.Violation != nil {
 			return false
@@ -931,6 +933,40 @@ func (w *World) RunSchedule(cfg *SchedConfig) bool {
 		c := w.candidates(cfg)
 		if len(c) == 0 {
 			return true
+		}
+		if cfg.HoldType != "" {
+			// channel-discipline probe: every message of one type reaches its recipient first as a copy
+			// with the transport's broadcast flag inverted; the genuine copies are held back for as long
+			// as anything else can be delivered, so that everything else of the round is already there
+			flipped := false
+			for _, a := range c {
+				e := a.env
+				if e != nil && e.Type == cfg.HoldType && !e.Flipped && e.Orig < 0 && !heldFlipped[e.Seq] {
+					heldFlipped[e.Seq] = true
+					w.seq++
+					d := *e
+					d.Seq, d.Orig, d.Flipped = w.seq, e.Seq, true
+					w.Faults["flag_flip"]++
+					w.Logf("FAULT flag-flip copy of held seq=%d delivered as seq=%d", e.Seq, d.Seq)
+					w.Deliver(&d)
+					flipped = true
+					break
+				}
+			}
+			if flipped {
+				continue
+			}
+			var rest []action
+			for _, a := range c {
+				if !(a.env != nil && a.env.Type == cfg.HoldType && a.env.Orig < 0 && !a.env.Flipped) {
+					rest = append(rest, a)
+				}
+			}
+			if len(rest) > 0 {
+				c = rest
+			} else {
+				w.Probes["held_type_released_last"]++
+			}
 		}
 		name := cfg.Strategy
 		if name == "mix" {
